@@ -255,7 +255,39 @@ def _run_shards(ctx, binp, mode_args, outname, nshards, env, timeout):
                 e["C19_SKIP"] = ",".join(skip)
             if resume:
                 e["C19_RESUME"] = resume
-            rc, txt = ctx.run([binp] + mode_args + [out], env=e, timeout=timeout)
+            cur = out + ".cur"
+            e["C19_CUR"] = cur
+            try:
+                rc, txt = ctx.run([binp] + mode_args + [out], env=e, timeout=timeout)
+            except vlib.Infra as ex:
+                # the process died: a panic in a goroutine the library started cannot be recovered by anybody.
+                # The case is known from the marker file; it is reproduced once (same death at the same case) and
+                # reported; the sweep goes on behind it.
+                msg = str(ex)
+                if "panic:" not in msg or "opentype/gtab/builder" not in msg or not os.path.exists(cur):
+                    raise
+                at = open(cur).read().strip()
+                pp, cid = [int(x) for x in at.split(":")]
+                e2 = dict(e)
+                e2["C19_RESUME"] = "%d:%d" % (pp, cid - 1)
+                e2["C19_CUR"] = cur + "2"
+                again = None
+                try:
+                    ctx.run([binp] + mode_args + [out + ".again"], env=e2, timeout=timeout)
+                except vlib.Infra as ex2:
+                    if "panic:" in str(ex2) and os.path.exists(cur + "2") and open(cur + "2").read().strip() == at:
+                        again = str(ex2)
+                if again is None:
+                    raise
+                pl = [l.strip() for l in again.splitlines() if l.startswith("panic:")][:1]
+                fr = [l.strip() for l in again.splitlines() if "opentype/gtab/builder." in l][:2]
+                with lock:
+                    state.setdefault("crashes", []).append((mode_args[0], pp, cid, (pl + fr)))
+                if len(state["crashes"]) > 6:
+                    return res
+                resume = at
+                part += 1
+                continue
             info = json.loads(txt.strip().splitlines()[-1])
             if os.path.exists(out) and os.path.getsize(out) > 0:
                 res.append((out, info))
@@ -273,6 +305,11 @@ def _run_shards(ctx, binp, mode_args, outname, nshards, env, timeout):
 
     with concurrent.futures.ThreadPoolExecutor(max_workers=max(1, min(nshards, ctx.workers))) as ex:
         outs = [x for r in ex.map(one, range(nshards)) for x in r]
+    for mode, pp, cid, what in state.get("crashes", []):
+        ctx.violation("builder.Parse ends the whole process: a panic in a goroutine the parser started cannot be recovered "
+                      "(mode %s, GOMAXPROCS %d, case %d of the sweep; reproduced by a second process that died at the same "
+                      "case): %s" % (mode, pp, cid, " | ".join(what)),
+                      sig={"part": "totality", "cause": "process-death"}, case={"mode": mode_args, "procs": pp, "case": cid})
     if state["hangs"]:
         ctx.notes.append("mode %s: %d call(s) did not return within the watchdog time%s" % (
             mode_args[0], state["hangs"],
